@@ -50,7 +50,7 @@ def bd_task():
             k.replay, k.witness = hit, hit["input"]
         out.append(k)
         t0 = time.time()
-        hit = c18.decl_search() or c18.heading_cases() or c18.pages_are_utf8()
+        hit = c18.decl_search() or c18.heading_cases() or c18.pages_are_utf8() or (lambda b: {"confirmed": True, "input": {"files": __import__("bounded.c06", fromlist=["x"]).NML_FILES}, "actual": b, "expected": "namelist rows show the variable the name denotes in the scope", "how": "real pipeline"} if b else None)(__import__("bounded.c06", fromlist=["x"]).namelist_members())
         d = OR(id=f"{PROP}.Bd.parser.display_strings", status=REFUTED if hit else PROVED, kind="Bd", role="bounded", target="ford.sourceform.line_to_variables / parse_type",
                desc="kind, len, prototype, attributes and dimension of parsed declarations are the source text (expressions kept whole)", bound=f"{len(c18.DECLS)} declarations",
                cases=len(c18.DECLS), seconds=time.time() - t0, backend="enumeration")
